@@ -54,7 +54,7 @@ CHECKS = {
         note='Premise made explicit: the consumer drains the pipeline (process()/results()). Persisted files are read back by the harness '
              '(csv/json/ndjson readers of its own), values restricted to ints/decimals/ASCII so codec issues stay under C03/C07.',
         technique='TLA+ engine model checked with TLC + TLC trace validation of probe-recorded runs + transparency/completeness replay on real observers',
-        design='6/C05', specs=['Engine.tla', 'EngineTrace.tla']),
+        design='6/C05', specs=['Engine.tla', 'EngineTrace.tla', 'Printer.tla', 'SubFlow.tla', 'Stats.tla']),
     'C06': dict(
         level='model_checking',
         text='Engine.tla counts, per source, the rows pulled (inference sample in the package phase, reader pre-read at the first row '
@@ -303,6 +303,20 @@ EXTRA = {
 }
 
 EXTRA3 = {'C01': " Session 3: malformed iterable links ('abc', a bare dict, a list of scalars, a malformed item after good rows) must be rejected.", 'C02': ' Session 3: Infer.tla (type inference of iterable sources over every set of <=3 of 14 Python value classes, every order of appearance; the pinned classifier is refuted), chained computed fields of one call (ChainSees), an input whose shared field has different types in its two resources, an integer field that varies inside a key group (median), a set_type pattern matching differently named fields in different resources.', 'C03': " Session 3: Missing.tla (nulls vs the schema's missingValues; typed tables carry missingValues lists), JsonCodec.tla/JsonTrace.tla (every real JSON data file is decoded by the specification's grammar-only reader, json.loads only cross-checks it), several temporal fields of one type with their own output formats, dotted resource names, resource paths inside directories.", 'C04': ' Session 3: StopIteration as exception class (row / rows functions, filter_rows, add_computed_field, set_type, sort_rows callables, sources); steps failing after ALL streams are exhausted in the main chain, in sources() sub-flows, conditionals, nested Flows and in a Flow consumed through load((descriptor, res_iter)); join target-key errors.', 'C05': ' Session 3: Printer.tla (which rows the printer shows, every case replayed; the printed tables must not depend on later steps), finalizer callbacks taking stats, observers in a Flow consumed by another Flow through load((descriptor, res_iter)) with and without resource selection, resource paths inside directories.', 'C06': ' Session 3: lazily iterated sources that know their length; a consumer that stops reading a resource early.', 'C07': 'FlowChain.tla: every bracketed pipeline (steps, checkpoints, nested Flows) x every history of runs / deletions, ideal vs implemented link absorption (known finding for nested Flows); CheckpointChain also carries failed runs; Ejson.tla TagObjects (known finding); checkpoint names that contain the temporary suffix.', 'C08': ' Session 3: a retry of the same Flow object after a failed first run.', 'C09': "Session 3: rows dropped by the dumper's own validator (drops), a second dump of other rows into the same target (same_dir_again).", 'C10': ' Session 3: the same step object used before on a rotated package (@reuse, 20% of the touch/delete/concat cases); aliasing programs for every field-adding step (add_field, add_computed_field dict/string target, unpivot).', 'C11': ' Session 3: the order/collection aggregators over the universe {0, -1, null} (NegVals).', 'C12': " Session 3: three key-string designs and ZeroFix in the spec (repairs designed there); keys of any length over an alphabet with NUL/SOH; both zeros; two resources sharing the key field's name (text in one, numbers in the other).", 'C13': ' Session 3: limit_rows exactly in front of an uncastable row under on_error=raise; the string strategies on a data package and a (descriptor, iterators) pair (nulls stay nulls); list selectors with names that look like patterns.', 'C14': ' Session 3: required constraint (the invalid value is null); invalid values that equal a valid one of another class (True/1/1.0); 5-argument handlers with a defaulted / differently named fifth parameter.', 'C15': " Session 3: falsy constants under both spellings of with; rows listing their keys in different orders; a later specification of one add_computed_field call using an earlier one's target.", 'C16': ' Session 3: in-place edits of nested values of one twin; pre-used step objects; a concatenate target named like one of the resources it replaces.', 'C17': 'Session 3: the same table as two resources of one package (per-resource state), overlapping unpivot entries, pre-used step objects.', 'C19': 'Session 3: dumps with the resource hash switched off, a package dumped again after loading it, byte-identical resources under add_filehash_to_path; a complete dump that lists missing files is a verdict.', 'C20': ' Session 3: WriterGetsCopy / PairingOK in the spec (repair designed there), histories without array/object columns, with a duration column (known finding on existing tables), and with a second table written by the same step.'}
+EXTRA4 = {
+    'C02': "Round 8: Typing.tla carries primary keys (KeysDeclared; PkFollows=FALSE, the pinned behaviour, is refuted - fix 5999354), a renaming concatenate and set_type(on_error=clear) over several fields; the oracle also asks tableschema whether every emitted schema is a valid Table Schema.",
+    'C03': "Round 8: rows whose key order is not the schema's; resources that arrive with an encoding of their own (files are decoded with the RECORDED encoding).",
+    'C04': "Round 8: sources raising exception classes the table reader treats specially (UnicodeDecodeError, OSError, io.UnsupportedOperation, classes with constructors of their own) inside / after the inference sample and at exhaustion.",
+    'C05': "Round 8: Stats.tla (statistics merged in pipeline order: LastReportWins; every chain replayed through process(), results() and a finalizer's stats); an xlsx dumper among the engine's observers and rows rebuilt with another key order.",
+    'C07': "Round 8: plain floats inside array / object / any cells; zone names shared by different UTC offsets.",
+    'C09': "Round 8: hash counters on while every byte / row counter is off.",
+    'C12': "Round 8: neighbouring doubles of both signs and integers in 2^52..2^53 as keys.",
+    'C13': "Round 8: duplicated headers whose text contains % (text, not a template).",
+    'C17': "Round 8: deduplicate over text keys whose glued renderings collide (one injective relabelling of the model's tables per field).",
+    'C18': "Round 8: the scheduler's queue shim implements mp.Queue.close() as CPython does (sentinel behind buffered items, both pipe ends closed, inherited at fork).",
+}
+for _k, _v in EXTRA4.items():
+    EXTRA3[_k] = (EXTRA3.get(_k, '') + ' ' + _v)
 for _k, _v in EXTRA3.items():
     EXTRA[_k] = (EXTRA.get(_k, '') + (_v if _v.startswith(' ') else ' ' + _v)).strip()
 
